@@ -26,6 +26,7 @@ type PropConfig struct {
 	Exclude   []string `json:"exclude"`        // functions not verified (suffix match)
 	Overflow  bool     `json:"overflow"`       // generate overflow obligations
 	Guards    bool     `json:"guards"`         // lockset obligations
+	Groups    []string `json:"guard_groups"`   // further protects-groups to check (e.g. "tx")
 	Kinds     []string `json:"kinds"`          // if set, only these obligation kinds count for this property
 	NameHas   []string `json:"name_contains"`  // if set, an obligation counts only if its name contains one of these
 	MinObl    int      `json:"min_obligations"`
@@ -157,7 +158,7 @@ func cmdCheck(args []string) {
 			}
 		} else if want == "contracts:*" {
 			for n := range sh.specs.Funcs {
-				if f, ok := sh.funcs[n]; ok && len(f.Blocks) > 0 && !excluded(n) && !seen[f] && (f.Parent() == nil || sh.specs.Funcs[n].Attrs["modular"]) {
+				if f, ok := sh.funcs[n]; ok && len(f.Blocks) > 0 && !excluded(n) && !seen[f] && (f.Parent() == nil || sh.specs.Funcs[n].Attrs["modular"]) && !sh.specs.Funcs[n].Attrs["inline"] {
 					fns = append(fns, f)
 					seen[f] = true
 				}
@@ -189,7 +190,7 @@ func cmdCheck(args []string) {
 			timeout = 60
 		}
 	}
-	opt := Options{Overflow: cfg.Overflow, Guards: cfg.Guards, Timeout: timeout, TmpDir: *tmp}
+	opt := Options{Overflow: cfg.Overflow, Guards: cfg.Guards, Groups: cfg.Groups, Timeout: timeout, TmpDir: *tmp}
 	if len(cfg.Kinds) > 0 || len(cfg.NameHas) > 0 {
 		opt.Want = func(ob *Obligation) bool {
 			if len(cfg.Kinds) > 0 {
